@@ -31,12 +31,11 @@ def third_party(b, xs, n_out=1, code=None, feats=None):
             outs.append(b.fm(xt.shape, xt.dtype, scale=xt.scales[0], zp=xt.zps[0]))
         else:
             outs.append(b.net.add(T(b.fresh("t"), xt.shape, xt.dtype)))
-    # an absent / empty custom_options vector makes the writer die (TypeError in CustomOptionsSerializer.serialize,
-    # C13's subject), so it is kept rare here: C11 speaks about networks that compile
-    nopt = rng.choice([1, 3, 12, 40, 40]) if rng.random() < 0.96 else 0
+    nopt = rng.choice([0, 1, 3, 12, 40, 40])
     co = bytes(rng.getrandbits(8) for _ in range(nopt))
-    if rng.random() < 0.02:
-        co = None
+    if rng.random() < 0.08:
+        co = None           # no custom_options vector at all
+        feats.add("custom_options_absent")
     b.net.ops.append(Op("CUSTOM", list(xs), outs, None, custom_code=code, custom_options=co, version=rng.choice([1, 1, 2, 7])))
     feats.add("third_party_custom")
     if co:
@@ -460,7 +459,7 @@ def c11_net(rng, idx=0):
         feats.add("input_is_output")
     # operator versions above 1 on a random subset
     for o in net.ops:
-        if rng.random() < 0.04:
+        if rng.random() < 0.1:
             o.version = rng.choice([2, 3, 4])
             feats.add("operator_version_gt1")
     if len(net.inputs) > 1:
